@@ -176,6 +176,30 @@ def finish(res, tier, seed, t0):
             kf.append((f, k))
         else:
             viol.append(f)
+    # A listed finding whose code was moved (into a helper, out of a macro) keeps
+    # its identity: same rule, same construct text behind the site prefix, and the
+    # listed site itself no longer reports it.  One listed entry covers one moved
+    # finding, so a second site with the same defect is still a violation.
+    def _tail(c):
+        return c.split(": ", 1)[1] if ": " in c else c
+    used = set(id(k) for _f, k in kf)
+    still = []
+    for f in viol:
+        moved = None
+        for k in known:
+            if k.get("status") == "known" and k.get("property") == res.prop and id(k) not in used and \
+                    k.get("rule") == f["rule"] and _tail(k.get("construct", "")) == _tail(f["construct"]) and \
+                    f.get("count", 1) <= k.get("count", 1):
+                moved = k
+                break
+        if moved is not None:
+            used.add(id(moved))
+            f = dict(f)
+            f["moved_from"] = moved.get("function")
+            kf.append((f, moved))
+        else:
+            still.append(f)
+    viol = still
     if res.floor_failures and not viol:
         raise AnalysisError("; ".join(res.floor_failures))
     for ff in res.floor_failures:
